@@ -5,12 +5,14 @@ callers (nx/ir.py inline_calls) — a precision device, never a verdict. Run onl
 import os, sys
 sys.path.insert(0, os.path.dirname(os.path.dirname(os.path.abspath(__file__))))
 from nx import extract, ir
-paths = set()
+paths = {}
 for cfg in ("all", "default"):
     d, _ = extract.extract(cfg)
     prog = ir.Prog(d)
-    paths |= {p for p, f in prog.fns.items() if f.kind in ("Fn", "AssocFn")}
+    for p, f in prog.fns.items():
+        if f.kind in ("Fn", "AssocFn"):
+            paths[p] = ir.signature(f)
 out = os.path.join(os.path.dirname(os.path.dirname(os.path.abspath(__file__))), "rules", "tables", "vocab.txt")
 with open(out, "w") as fh:
-    fh.write("\n".join(sorted(paths)) + "\n")
+    fh.write("\n".join("%s\t%s" % (p, paths[p]) for p in sorted(paths)) + "\n")
 print(len(paths), "function paths ->", out)
